@@ -84,7 +84,11 @@ class Ctx:
             cmd += extra
         cmd += [module + ".tla"]
         e = dict(os.environ)
-        jto = "-Xss256m"
+        # TLC unpacks its standard modules into java.io.tmpdir on every start: keep that inside the scratch
+        # directory of the run (removed at the end) instead of littering /tmp
+        jtmp = os.path.join(self.scratch, "jtmp")
+        os.makedirs(jtmp, exist_ok=True)
+        jto = "-Xss256m -Djava.io.tmpdir=" + jtmp
         if deque:
             jto += " -Dtlc2.tool.queue.IStateQueue=StateDeque"
         e["JAVA_TOOL_OPTIONS"] = jto
